@@ -1054,7 +1054,9 @@ static const uint8_t *unmarshal_one_def(
 
         /* Unmarshal closure bitset if needed */
         if (def->flags & JANET_FUNCDEF_FLAG_HASCLOBITSET) {
+            if (def->slotcount > 0xFFFFFF) janet_panic("funcdef has invalid bytecode");
             int32_t n = (def->slotcount + 31) >> 5;
+            marsh_need(st, data, 4 * (int64_t) n);
             def->closure_bitset = janet_malloc(sizeof(uint32_t) * (size_t) n);
             if (NULL == def->closure_bitset) {
                 JANET_OUT_OF_MEMORY;
